@@ -461,6 +461,8 @@ def _make_from_spec(spec):
     kw = dict(full=spec.get("full", False), data_width=spec.get("data_width", 8), address_width=spec.get("address_width", 2),
               domain=spec.get("domain", True))
     kind = spec["kind"]
+    if kind == "soc":
+        return c08lib.make_from_soc_spec(spec)
     if kind in ("shared", "xbar"):
         kw["id_width"] = spec.get("id_width", 1)
         if spec.get("m_address_widths"):
@@ -595,7 +597,8 @@ def correspond(ctx):
                          "litex.gen.sim.core.Evaluator on every instance of every run and by two Evaluator-only mode-B instances"]
     ctx.jobs = jobs(ctx.tier, ctx.seed)
     dis = []
-    parts = (_corpus, _counter_cases, _rr_cases, _saturation_case, c08lib.soc_fabric_cases, c08lib.check_params_cases,
+    parts = (_corpus, _counter_cases, _rr_cases, _saturation_case, c08lib.soc_fabric_cases, c08lib.soc_directed_cases,
+             c08lib.check_params_cases, c08lib.id_width_cases,
              lambda c: c08lib.local_rules_cases(c, MAPS, _region_map, quick=c.tier == "quick"))
     for part in parts:
         try:
